@@ -70,6 +70,51 @@ fn main() {
                 }
             }
         }
+        Some("tracehash") => {
+            // determinism self-test: print "<index> <hash of canonical trace>" for a range of scenarios
+            let id = args.get(2).cloned().unwrap_or_default();
+            let start: usize = args.get(3).and_then(|s| s.parse().ok()).unwrap_or(0);
+            let count: usize = args.get(4).and_then(|s| s.parse().ok()).unwrap_or(16);
+            let workers: usize = std::env::var("VERIF_WORKERS").ok().and_then(|s| s.parse().ok()).unwrap_or(16);
+            match find(&id) {
+                Some(p) => {
+                    let seed = harness::verif_seed();
+                    let next = std::sync::atomic::AtomicUsize::new(start);
+                    let res = std::sync::Mutex::new(Vec::new());
+                    std::thread::scope(|sc| {
+                        for _ in 0..workers.max(1) {
+                            sc.spawn(|| loop {
+                                let i = next.fetch_add(1, std::sync::atomic::Ordering::SeqCst);
+                                if i >= start + count {
+                                    break;
+                                }
+                                let s = p.generate(seed, i, Tier::Quick);
+                                let o = p.execute(&s);
+                                if let Ok(d) = std::env::var("VERIF_DUMP_TRACES") {
+                                    let _ = std::fs::create_dir_all(&d);
+                                    let mut t = o.trace.join("\n");
+                                    t.push_str(&format!("\nskipped={:?} violations={:?} advisories={:?}\n", o.skipped, o.violations, o.advisories));
+                                    let _ = std::fs::write(format!("{}/{}-{}.txt", d, id, i), t);
+                                }
+                                let line = match &o.skipped {
+                                    Some(r) => format!("{} skipped {}", i, r),
+                                    None => format!("{} {:016x} violations={}", i, prng::hash_str(&o.trace.join("\n")), o.violations.len()),
+                                };
+                                res.lock().unwrap().push((i, line));
+                            });
+                        }
+                    });
+                    let mut v = res.into_inner().unwrap();
+                    v.sort();
+                    for (_, l) in v {
+                        println!("{}", l);
+                    }
+                    world::cleanup_scratch();
+                    0
+                }
+                None => 2,
+            }
+        }
         Some("gen") => {
             // print the scenario for (property, index)
             let id = args.get(2).cloned().unwrap_or_default();
